@@ -217,6 +217,26 @@ def judge_run(res, names, js, n, b, cb, exp=None, record=True, rerun=True):
             res.violation(dict(case, law="rerun"), {"first": got, "second": got2},
                           {"second": exp2 if len(seconds) <= 1 else {"any_of": seconds}}, cause,
                           note="second run of the same Split object over an equal flow")
+    if isinstance(got, list) and got in outs and rerun and n >= 2 and all(nm in M.PER_VALUE for nm in names):
+        # branches without state: a run whose consumer stopped after one result (its generator left
+        # alive), then a complete run of the same Split object - as if nothing had happened before
+        s3 = _construct_split(res, case, names, js, b, cb)
+        if s3 is not None:
+            try:
+                g = s3.run(iter(_flow(n)))
+                next(g, None)
+                got3 = list(s3.run(iter(_flow(n))))
+                del g
+            except Exception as e:  # noqa
+                got3 = _exc(e)
+            if record:
+                res.count("runs_after_an_interrupted_run_checked")
+            if got3 not in outs:
+                cause = _schedule_cause(names, n, got3, outs[0], info) if isinstance(got3, list) \
+                    else {"law": "run-schedule", "observed": got3}
+                cause["law"] = "run-after-interrupted-run"
+                res.violation(dict(case, law="rerun-after-stop"), got3, outs[0], cause,
+                              note="the same Split object run again after a consumer stopped early")
     return got
 
 
@@ -686,7 +706,7 @@ def run_shard(p, tier):
 def replay(case):
     res = Result()
     law = case.get("law")
-    if law in ("run", "rerun"):
+    if law in ("run", "rerun", "rerun-after-stop"):
         judge_run(res, case["branches"], case["js"], case["n"], case["bufsize"], case["copy_buf"])
     elif law == "bufsize-independence":
         names, js, n, cb = case["branches"], case["js"], case["n"], case["copy_buf"]
